@@ -121,6 +121,7 @@ class C14(Check):
         "identical, one-to-many broadcasting, chord<->angle round trips, sky<->xyz round trips "
         "incl. -0.0/subnormal/unnormalised vectors, means); a batch is non-trivial when every "
         "primitive it targets returned values for all its elements; distinct = (class, batch seed)"
+        ' Further classes: batches of 1..6 vectors, in-place coordinate updates between queries, operands sharing memory, point sets above 2^18, floating-point errors raised as exceptions, total weights of 1e-170..1e160.'
     )
     assumptions = [
         "numpy.longdouble has a 64-bit mantissa on this platform (checked at start)",
